@@ -149,6 +149,11 @@ type FuncEnc struct {
 	inputs   []ModelInput
 	props    []string
 	bvOffsets map[string]bvOffset
+	consts    map[string]bool
+	defAt     map[string]int
+	usedIn    map[string][]int
+	hub       map[string]bool
+	indexedN  int
 }
 
 type bvOffset struct {
@@ -170,7 +175,18 @@ func (fe *FuncEnc) freshName(prefix string) string {
 func (fe *FuncEnc) fresh(prefix string, s Sort) Term {
 	n := fe.freshName(prefix)
 	fe.addItem(fmt.Sprintf("(declare-const %s %s)", n, s), n)
+	fe.consts[n] = true
 	return Term{n, s}
+}
+
+// atom returns a declared constant equal to t (define-fun names are macros and must not occur in patterns).
+func (fe *FuncEnc) atom(t Term) Term {
+	if fe.consts[t.S] {
+		return t
+	}
+	a := fe.fresh("alias", t.Sort)
+	fe.addItem("(assert (= "+a.S+" "+t.S+"))", "")
+	return a
 }
 
 var atomRe = regexp.MustCompile(`^[A-Za-z0-9_.$@!#-]+$`)
@@ -201,6 +217,7 @@ func (fe *FuncEnc) comp(st *State, name string, s Sort) Term {
 	init := name + "_0"
 	if !fe.declared[init] {
 		fe.declared[init] = true
+		fe.consts[init] = true
 		fe.addItem(fmt.Sprintf("(declare-const %s %s)", init, s), init)
 		fe.eng.noteComp(name, s)
 		if strings.HasPrefix(name, "MD_") {
@@ -389,14 +406,20 @@ func (fe *FuncEnc) constTerm(c *ssa.Const) Term {
 func (fe *FuncEnc) wf(x Term, t types.Type, st *State) Term {
 	switch u := t.Underlying().(type) {
 	case *types.Slice:
-		es := fe.eng.sorts.sortOf(u.Elem())
-		a := fe.comp(st, "A_E_"+sortKey(es), arrSort(SInt, SBool))
+		a := fe.comp(st, "A_E_"+fe.eng.sorts.elemKey(u.Elem()), arrSort(SInt, SBool))
 		return Term{fmt.Sprintf("(and (wfSlice %s) (=> (not (= (s.ref %s) 0)) (select %s (s.ref %s))))", x.S, x.S, a.S, x.S), SBool}
 	case *types.Interface:
 		aArr := fe.comp(st, "A_E_Val", arrSort(SInt, SBool))
 		aObj := fe.comp(st, "A_M_Str_Val", arrSort(SInt, SBool))
-		return Term{fmt.Sprintf("(and (wfVal %s) (=> (and ((_ is VArr) %s) (not (= (s.ref (varr %s)) 0))) (select %s (s.ref (varr %s)))) (=> (and ((_ is VObj) %s) (not (= (vobj %s) 0))) (select %s (vobj %s))))",
-			x.S, x.S, x.S, aArr.S, x.S, x.S, x.S, aObj.S, x.S), SBool}
+		extra := ""
+		for _, dt := range fe.eng.dynTypes {
+			if n, _, ok := fe.structOfPointer(dt); ok && n.Obj().Pkg().Name() == "interpreter" {
+				a := fe.comp(st, "A_H_"+sanitize(fe.eng.sorts.shortTypeName(n)), arrSort(SInt, SBool))
+				extra += fmt.Sprintf(" (=> (and ((_ is VPtr) %s) (= (vptag %s) %d) (> (vpref %s) 0)) (select %s (vpref %s)))", x.S, x.S, fe.eng.sorts.tagOf(dt), x.S, a.S, x.S)
+			}
+		}
+		return Term{fmt.Sprintf("(and (wfVal %s) (=> (and ((_ is VArr) %s) (not (= (s.ref (varr %s)) 0))) (select %s (s.ref (varr %s)))) (=> (and ((_ is VObj) %s) (not (= (vobj %s) 0))) (select %s (vobj %s)))%s)",
+			x.S, x.S, x.S, aArr.S, x.S, x.S, x.S, aObj.S, x.S, extra), SBool}
 	case *types.Pointer:
 		facts := []Term{tLe(tInt(0), x)}
 		if aset := fe.allocSetOfPointee(u.Elem()); aset != "" {
@@ -448,7 +471,7 @@ func (fe *FuncEnc) allocSetOfPointee(elem types.Type) string {
 		}
 	}
 	if a, ok := elem.Underlying().(*types.Array); ok {
-		return "A_E_" + sortKey(fe.eng.sorts.sortOf(a.Elem()))
+		return "A_E_" + fe.eng.sorts.elemKey(a.Elem())
 	}
 	return "A_C_" + sortKey(fe.eng.sorts.sortOf(elem))
 }
